@@ -65,5 +65,51 @@ def exitReason (nbEvalMax atExit : Nat) (tol : Bool) : Bool := tol || decide (at
 /-- "one-dimensional bracketing returns a triple whose middle point has the lowest value" -/
 def bracketOk (k : Bracket α) : Bool := leb k.b.f k.a.f && leb k.b.f k.c.f
 
+/-! ### the same optimiser object used again
+
+The property's quantifier is over *uses* of an optimiser; an object may be used for several runs, with
+`setConstraintPolicy` / `setMaximumNumberOfEvaluations` and another list (other constraints, another
+start) between them.  The driver checks `feasibleLog` run by run, each run against the constraints of
+*its* `init`'s list and under the policy in force at *its* `init`. -/
+
+/-- one run on an optimiser object that exists: `setConstraintPolicy(policy)`,
+`setMaximumNumberOfEvaluations(nbEvalMax)`, `init(params)`, `optimize()` -/
+structure Run (α : Type) where
+  policy : Policy
+  nbEvalMax : Nat
+  params : PList α
+  fuel : Nat
+
+/-- `init` and `optimize` of an optimiser class (its own `optimize` when it overrides the template's) -/
+structure Obj (τ α : Type) where
+  init : St (Fn α) τ α → PList α → Except (Exc × Fn α) (St (Fn α) τ α)
+  optimize : Nat → St (Fn α) τ α → Except (Exc × Fn α) (St (Fn α) τ α × α)
+
+/-- the object when run `r` begins: policy and cap set; the observer has read and emptied the
+objective's log (the optimiser's own members — and whatever its sub-objects keep — are as the earlier
+runs left them) -/
+def Obj.prepare {τ : Type} (s : St (Fn α) τ α) (r : Run α) : St (Fn α) τ α :=
+  { s with core := { s.core with policy := r.policy, nbEvalMax := r.nbEvalMax }, fn := { s.fn with log := [] } }
+
+/-- run `r` on the object `s`: the object afterwards (`none`: a call raised; the object is not used
+again) and the points at which the objective has been evaluated during the run (most recent first) -/
+def Obj.run {τ : Type} (O : Obj τ α) (s : St (Fn α) τ α) (r : Run α) : Option (St (Fn α) τ α) × List (List α) :=
+  match O.init (Obj.prepare s r) r.params with
+  | .error e => (none, e.2.log)
+  | .ok s1 =>
+    match O.optimize r.fuel s1 with
+    | .error e => (none, e.2.log)
+    | .ok s2 => (some s2.1, s2.1.fn.log)
+
+/-- a history of runs on the same object: for every run that took place, the run, the function's own
+point when it began and the points evaluated during it -/
+def Obj.history {τ : Type} (O : Obj τ α) : St (Fn α) τ α → List (Run α) → List (Run α × List α × List (List α))
+  | _, [] => []
+  | s, r :: rs =>
+    (r, s.fn.point, (O.run s r).2) ::
+      (match (O.run s r).1 with
+       | some s' => O.history s' rs
+       | none => [])
+
 end
 end Bpp.Optim.Spec
